@@ -91,7 +91,7 @@ Definition nondestructive (o : op) : bool :=
   match o with
   | OList _ _ | OCons _ _ _ | OListStar _ _ _ | OCdr _ _ | ONthcdr _ _ _ | OMember _ _ _ | OLast _ _ | OButlast _ _
   | OSubseq _ _ _ _ | OCopy _ _ | OReverse _ _ | OAppend _ _ _ | OAdd _ _ _ | OPush _ _ | OPop _ | ORemove _ _ _
-  | OMapcar _ _ _ | ORemoveIf _ _ _ _ _ | ONconc _ _ _ => true
+  | OMapcar _ _ _ | ORemoveIf _ _ _ _ _ | ORemoveDup _ _ _ _ _ | ONconc _ _ _ => true
   | _ => false
   end.
 
@@ -367,6 +367,7 @@ Proof.
   - (* remove *) apply inv_fresh'; assumption.
   - (* mapcar *) apply inv_fresh'; assumption.
   - (* remove-if *) apply inv_fresh'; assumption.
+  - (* remove-duplicates *) apply inv_fresh'; assumption.
 Qed.
 
 (* ---------- histories ---------- *)
@@ -418,7 +419,7 @@ Qed.
 Definition fresh_op (o : op) : bool :=
   match o with
   | OList _ _ | OCons _ _ _ | OPush _ _ | OCopy _ _ | OButlast _ _ | OAppend _ _ _ | OAdd _ _ _ | ORemove _ _ _
-  | OMapcar _ _ _ | ORemoveIf _ _ _ _ _ => true
+  | OMapcar _ _ _ | ORemoveIf _ _ _ _ _ | ORemoveDup _ _ _ _ _ => true
   | _ => false
   end.
 Lemma live_upd_same st h' d o : d < length (vars st) -> live (upd st h' d o) d = norm o.
@@ -509,3 +510,79 @@ Proof.
     + destruct (IH None) as [A _]. cbn [length]. split; [lia|]. intros m E. discriminate E.
   - destruct (IH n) as [A B]. cbn [length]. split; [lia|]. intros m E. specialize (B m E). lia.
 Qed.
+
+(* ---------- remove-duplicates / delete-duplicates: the value ---------- *)
+Lemma dscan_in inw seen i l x : In x (dscan inw seen i l) -> In x l.
+Proof.
+  revert seen i. induction l as [|y l IH]; intros seen i H; [exact H|]. cbn [dscan] in H.
+  destruct (inw i); [destruct (existsb (Z.eqb y) seen)|].
+  - right. exact (IH _ _ H).
+  - destruct H as [H|H]; [left; exact H|right; exact (IH _ _ H)].
+  - destruct H as [H|H]; [left; exact H|right; exact (IH _ _ H)].
+Qed.
+Lemma dscan_keeps inw seen i l x : In x l -> In x (dscan inw seen i l) \/ In x seen.
+Proof.
+  revert seen i. induction l as [|y l IH]; intros seen i H; [destruct H|]. cbn [dscan].
+  destruct H as [H|H].
+  - subst y. destruct (inw i); [|left; left; reflexivity].
+    destruct (existsb (Z.eqb x) seen) eqn:E; [|left; left; reflexivity].
+    right. apply existsb_exists in E. destruct E as [z [Hz Ez]]. apply Z.eqb_eq in Ez. subst z. exact Hz.
+  - destruct (inw i); [destruct (existsb (Z.eqb y) seen) eqn:E|].
+    + destruct (IH (y :: seen) (S i) H) as [A|[A|A]]; [left; exact A| |right; exact A].
+      subst y. right. apply existsb_exists in E. destruct E as [z [Hz Ez]]. apply Z.eqb_eq in Ez. subst z. exact Hz.
+    + destruct (IH (y :: seen) (S i) H) as [A|[A|A]]; [left; right; exact A|left; left; exact A|right; exact A].
+    + destruct (IH seen (S i) H) as [A|A]; [left; right; exact A|right; exact A].
+Qed.
+(* a kept element inside the window is not among the remembered ones, and the window elements kept are pairwise
+   different *)
+Lemma dscan_nodup seen i l : NoDup (dscan (fun _ => true) seen i l) /\ forall x, In x (dscan (fun _ => true) seen i l) -> ~ In x seen.
+Proof.
+  revert seen i. induction l as [|y l IH]; intros seen i; [split; [constructor|intros x []]|]. cbn [dscan].
+  destruct (IH (y :: seen) (S i)) as [ND NS].
+  destruct (existsb (Z.eqb y) seen) eqn:E.
+  - split; [exact ND|]. intros x Hx A. apply (NS x Hx). right. exact A.
+  - split.
+    + constructor; [|exact ND]. intro A. apply (NS y A). left. reflexivity.
+    + intros x [Hx|Hx] A.
+      * subst x. assert (existsb (Z.eqb y) seen = true) as T; [|rewrite T in E; discriminate E].
+        apply existsb_exists. exists y. split; [exact A|apply Z.eqb_refl].
+      * apply (NS x Hx). right. exact A.
+Qed.
+(* whatever the direction and the window: the result has exactly the elements of the argument *)
+Lemma remove_dup_same_elements fe s e l x : In x (remove_dup fe s e l) <-> In x l.
+Proof.
+  unfold remove_dup. destruct fe.
+  - split; [apply dscan_in|]. intro H. match goal with |- In x (dscan ?f _ _ _) => destruct (dscan_keeps f [] 0 l x H) as [A|[]] end. exact A.
+  - rewrite <- in_rev. split.
+    + intro H. apply in_rev. exact (dscan_in _ _ _ _ _ H).
+    + intro H. apply in_rev in H. match goal with |- In x (dscan ?f _ _ _) => destruct (dscan_keeps f [] 0 (rev l) x H) as [A|[]] end. exact A.
+Qed.
+Lemma dscan_ext f g seen i l : (forall j, f j = g j) -> dscan f seen i l = dscan g seen i l.
+Proof.
+  intro H. revert seen i. induction l as [|y l IH]; intros seen i; [reflexivity|]. cbn [dscan].
+  rewrite H, !IH. reflexivity.
+Qed.
+(* over the whole list (no :start, no :end) no element occurs twice in the result *)
+Lemma remove_dup_nodup fe l : NoDup (remove_dup fe 0 None l).
+Proof.
+  unfold remove_dup. destruct fe.
+  - destruct l as [|y l]; [constructor|].
+    assert (forall k seen i m, length m + i <= k -> dscan (fun i0 => (0 <=? i0) && (i0 <? k)) seen i m = dscan (fun _ => true) seen i m) as X.
+    { intros k seen i m. revert seen i. induction m as [|z m IH]; intros seen i Hl; [reflexivity|]. cbn [dscan length] in *.
+      replace ((0 <=? i) && (i <? k)) with true by (symmetry; apply andb_true_iff; split; [apply Nat.leb_le; lia|apply Nat.ltb_lt; lia]).
+      rewrite !IH by lia. reflexivity. }
+    rewrite X by lia. apply dscan_nodup.
+  - apply NoDup_rev.
+    assert (forall n seen i m, length m + i <= n -> dscan (fun j => (0 <=? n - 1 - j) && (n - 1 - j <? n)) seen i m = dscan (fun _ => true) seen i m) as X.
+    { intros n seen i m. revert seen i. induction m as [|z m IH]; intros seen i Hl; [reflexivity|]. cbn [dscan length] in *.
+      replace ((0 <=? n - 1 - i) && (n - 1 - i <? n)) with true by (symmetry; apply andb_true_iff; split; [apply Nat.leb_le; lia|apply Nat.ltb_lt; lia]).
+      rewrite !IH by lia. reflexivity. }
+    rewrite X by (rewrite rev_length; lia). apply dscan_nodup.
+Qed.
+(* which occurrence stays *)
+Lemma remove_dup_examples :
+  remove_dup true 0 None [1; 2; 1; 3; 2; 4]%Z = [1; 2; 3; 4]%Z /\
+  remove_dup false 0 None [1; 2; 1; 3; 2; 4]%Z = [1; 3; 2; 4]%Z /\
+  remove_dup true 1 None [1; 2; 1; 2; 1]%Z = [1; 2; 1]%Z /\
+  remove_dup false 0 (Some 3) [1; 2; 1; 2; 1]%Z = [2; 1; 2; 1]%Z.
+Proof. repeat split; vm_compute; reflexivity. Qed.
